@@ -19,7 +19,10 @@ DependencyFinderVisitor.visit_Block, and (bounded stand-in) the whole NodeVisito
   C07.emit.recursive     recursive loops are compiled to  def loop(reciter, loop_render_func, depth=0)  iterating
                          LoopContext(reciter, undefined, loop_render_func, depth)  and started by  loop(<iterable>, loop)
   C07.find_undeclared.*  find_undeclared(nodes, names) reports every name of `names` that occurs as a load-context Name anywhere
-                         in the given subtrees except inside nested Block nodes: VCs on visit_Name / visit_Block / the driver,
+                         in the given subtrees except inside nested Block nodes, a nested macro / call block being a scope of its
+                         own (what it declares, e.g. a parameter named `loop`, is declared only inside of it: nested_scope[...] VCs on
+                         the real walk, scope_handler[...] VCs, bounded differential[nested_scopes]; hunt report C07_1):
+                         VCs on visit_Name / visit_Block / the driver,
                          a table obligation on the visitor classes' visit_* methods and NodeVisitor's dispatch, and a bounded
                          differential stand-in over all small node trees (nested loops whose else / filter read the outer `loop`)
 """
@@ -155,6 +158,12 @@ def configure_for(I):
             # one arbitrary Name node stands for all of them (the check on each is effect-free unless it rejects)
             nm = emit.make_node(st, N.Name, "some_name")
             return [(st, (nm,))]
+        # any further search (e.g. for includes / imports `with context`, hunt C05_2 = C07_2): an opaque iterable; any(...) over
+        # it is an unconstrained flag, which can only make the loop extended MORE often (pred_extended demands the three
+        # conditions it knows, it does not forbid others)
+        cl = what if isinstance(what, tuple) else (what,)
+        if cl and all(inspect.isclass(c) and issubclass(c, N.Node) for c in cl):
+            return [(st, emit.AbsIter("find_all(" + ",".join(c.__name__ for c in cl) + ")", ("found", args[0])))]
         raise Unsupported(f"find_all({what!r})", node)
 
     I.specs["Node.find_all"] = find_all
@@ -166,6 +175,8 @@ def configure_for(I):
             m = re.match(r"^\(?(\w+)\.scoped for (\w+) in ", a.desc)
             if m and m.group(1) == m.group(2):
                 return [(st, sym("scoped_block_inside", "bool"))]
+        if isinstance(a, emit.AbsIter) and isinstance(a.src, tuple) and a.src and a.src[0] == "found":
+            return [(st, sym("any[" + re.sub(r"\W+", "_", a.desc)[:60] + "]", "bool"))]
         return base_any(I_, st, args, kwargs, node)
 
     I.specs[("fn", id(any))] = any_spec
@@ -792,6 +803,192 @@ def replay_visit_name(w=None):
     return (bool(problems), "; ".join(problems[:3]) or "visit_Name agrees with its specification on the small visitor states")
 
 
+SCOPE_CALLEE = "scope_lemma_callee"
+SCOPE_HANDLERS = {"visit_Macro", "visit_CallBlock"}
+ORDER_HANDLERS = {"visit_Assign", "visit_AssignBlock", "visit_FilterBlock", "visit_For", "visit_With"}
+
+
+class ScopeHandler(VC):
+    """UndeclaredNameVisitor.visit_Macro / visit_CallBlock (when the visitor has them): the node's children are all walked
+    (exactly one generic_visit of this node: reads inside a nested macro still count, 'it will not stop at closure frames'),
+    whatever the walk took out of consideration is looked for again afterwards (names' = names), the report object is kept.
+    The walk itself is abstract here: it may report and un-watch arbitrary names."""
+    prop = PROP
+
+    def __init__(self, which):
+        self.which = which
+        self.target = f"jinja2.compiler:UndeclaredNameVisitor.visit_{which}"
+        super().__init__(PROP, f"C07.find_undeclared.scope_handler[{which}]")
+
+    def configure(self, I):
+        _set_eq_hook(I)
+        c = self
+
+        def walk(I_, st, args, kwargs, node):
+            # an arbitrary walk: un-watches and reports arbitrary names, in place
+            st.trace.append(Event("call", "generic_visit", list(args), dict(kwargs), None, lineno=getattr(node, "lineno", None)))
+            hn, hu = st.get(c.names), st.get(c.undeclared)
+            hn.dom, hn.size = z3.Const("names_after_walk", S_ARR), z3.Int("n_names_after_walk")
+            hu.dom, hu.size = z3.Const("undeclared_after_walk", S_ARR), z3.Int("n_undeclared_after_walk")
+            # ... and it may stop early (VisitorExit) because everything still looked for INSIDE was found
+            s2 = st.fork()
+            e = Exc(C.VisitorExit, (), origin=getattr(node, "lineno", None))
+            return [(s2, Raised(e)), (st, None)]
+
+        I.specs["NodeVisitor.generic_visit"] = walk
+
+    def setup(self, I, st):
+        self.N0, self.U0 = z3.Const("names0", S_ARR), z3.Const("undeclared0", S_ARR)
+        self.names = st.alloc(HSet(dom=self.N0, size=z3.Int("n_names"), kk="str"), initial=True)
+        self.undeclared = st.alloc(HSet(dom=self.U0, size=z3.Int("n_undeclared"), kk="str"), initial=True)
+        self.visitor = st.alloc(HObj(C.UndeclaredNameVisitor, fields={"names": self.names, "undeclared": self.undeclared}, path="self"), initial=True)
+        self.node = emit.make_node(st, getattr(N, self.which), "node")
+        return [self.visitor, self.node], {}
+
+    def p_scope(self, pre, out):
+        calls = [e for e in out.st.trace if e.kind == "call" and e.name == "generic_visit"]
+        if len(calls) != 1 or list(calls[0].args) != [self.visitor, self.node] or calls[0].kwargs:
+            return False
+        f = out.st.get(self.visitor).fields
+        if f.get("undeclared") != self.undeclared or not isinstance(f.get("names"), Ref):
+            return False
+        hn, hu = out.st.get(f["names"]), out.st.get(self.undeclared)
+        if not isinstance(hn, HSet) or hn.items is not None or hu.items is not None:
+            return False
+        if out.raised:
+            # the whole search may only stop when everything looked for OUTSIDE this scope has been found
+            x = z3.String(fresh_name("s"))
+            return z3.And(out.value.cls is C.VisitorExit, z3.ForAll([x], z3.Implies(z3.Select(self.N0, x), z3.Select(hu.dom, x))))
+        return hn.dom == self.N0
+
+    posts = [("children_walked_declarations_restored", p_scope)]
+
+    def concretize(self, model, pre, out):
+        return {"vc": "scope_handler", "which": self.which}
+
+    def replay(self, w):
+        return replay_nested_scope(w)
+
+
+class NestedScope(VC):
+    """A nested macro / call block is a scope of its own: what it declares (its parameters) is declared only inside of it.
+    The REAL walk (NodeVisitor.visit -> get_visitor / generic_visit -> Node.iter_child_nodes -> visit_Name, and the visitor's
+    own visit_Macro / visit_CallBlock if it has them) over `{% macro m(p) %}{% endmacro %}` resp. `{% call(p) f() %}{% endcall %}`
+    with an arbitrary parameter name p, on an arbitrary visitor state: afterwards exactly the same names are still looked
+    for, and nothing was reported.  (Otherwise a later read of p - e.g. `loop.index` after `{% macro m(loop) %}` in a for
+    body - is not found, visit_For decides the loop needs no LoopContext, and `loop` is undefined or the OUTER loop's.)"""
+    prop = PROP
+    target = "jinja2.visitor:NodeVisitor.visit"
+
+    def __init__(self, which, default=False):
+        # default=True: the macro also has a default expression that reads an arbitrary name q (a read in a default counts;
+        # if it completes what is looked for INSIDE the scope the search must still go on for what the scope's parameter hides)
+        self.which, self.default = which, default
+        super().__init__(PROP, f"C07.find_undeclared.nested_scope[{which}{',default' if default else ''}]")
+
+    def configure(self, I):
+        _set_eq_hook(I)
+        I.inline.add("*")
+
+    def setup(self, I, st):
+        self.N0, self.U0 = z3.Const("names0", S_ARR), z3.Const("undeclared0", S_ARR)
+        self.names = st.alloc(HSet(dom=self.N0, size=z3.Int("n_names"), kk="str"), initial=True)
+        self.undeclared = st.alloc(HSet(dom=self.U0, size=z3.Int("n_undeclared"), kk="str"), initial=True)
+        self.visitor = st.alloc(HObj(C.UndeclaredNameVisitor, fields={"names": self.names, "undeclared": self.undeclared}, path="self"), initial=True)
+        self.p = sym("parameter_name", "str")
+        common = {"lineno": 1, "environment": None}
+        param = st.alloc(HObj(N.Name, fields=dict(common, name=self.p, ctx="param"), path="param"), initial=True)
+        empty = lambda: st.alloc(HList(items=[]), initial=True)  # noqa: E731
+        args = st.alloc(HList(items=[param]), initial=True)
+        self.q = sym("name_read_in_default", "str")
+        if self.which == "Macro":
+            dflt = empty()
+            if self.default:
+                rd = st.alloc(HObj(N.Name, fields=dict(common, name=self.q, ctx="load"), path="default"), initial=True)
+                dflt = st.alloc(HList(items=[rd]), initial=True)
+            fields = dict(common, name="m", args=args, defaults=dflt, body=empty())
+        else:
+            # the callee is read in the enclosing scope; it is not one of the names looked for here
+            st.assume(z3.Not(z3.Select(self.N0, z3.StringVal(SCOPE_CALLEE))))
+            callee = st.alloc(HObj(N.Name, fields=dict(common, name=SCOPE_CALLEE, ctx="load"), path="callee"), initial=True)
+            call = st.alloc(HObj(N.Call, fields=dict(common, node=callee, args=empty(), kwargs=empty(), dyn_args=None, dyn_kwargs=None), path="call"), initial=True)
+            fields = dict(common, call=call, args=args, defaults=empty(), body=empty())
+        self.node = st.alloc(HObj(getattr(N, self.which), fields=fields, path="node"), initial=True)
+        return [self.visitor, self.node], {}
+
+    def p_scope(self, pre, out):
+        f = out.st.get(self.visitor).fields
+        hn, hu = out.st.get(f["names"]) if isinstance(f.get("names"), Ref) else None, out.st.get(f["undeclared"]) if isinstance(f.get("undeclared"), Ref) else None
+        if not isinstance(hn, HSet) or not isinstance(hu, HSet) or hn.items is not None or hu.items is not None:
+            return False
+        # the report: the name read in the default, if it is looked for and not hidden by the parameter before it
+        u_exp = self.U0
+        if self.default:
+            u_exp = z3.If(z3.And(z3.Select(self.N0, self.q.t), self.q.t != self.p.t), z3.Store(self.U0, self.q.t, True), self.U0)
+        if out.raised:
+            # the search as a whole may only stop when everything looked for OUTSIDE this scope has been found
+            x = z3.String(fresh_name("s"))
+            return z3.And(out.value.cls is C.VisitorExit, hu.dom == u_exp, z3.ForAll([x], z3.Implies(z3.Select(self.N0, x), z3.Select(u_exp, x))))
+        return z3.And(hn.dom == self.N0, hu.dom == u_exp)
+
+    posts = [("declarations_end_with_the_scope", p_scope)]
+
+    def concretize(self, model, pre, out):
+        return {"vc": "nested_scope", "which": self.which, "name": model_value(model, self.p.t), "watched": bool(model_value(model, z3.Select(self.N0, self.p.t))),
+                "default_reads": model_value(model, self.q.t) if self.default else None}
+
+    def finding_key(self, res):
+        w = res.witness or {}
+        if isinstance(w, dict) and w.get("vc") == "nested_scope" and w.get("watched"):
+            return "parameter_of_nested_scope_stops_the_search_for_its_name"
+        return str(w)[:120]
+
+    def replay(self, w):
+        return replay_nested_scope(w)
+
+
+HUNT_C07_1 = [
+    ("{% for x in 'ab' %}{% macro m(loop) %}{% endmacro %}{{ loop.index }}{% endfor %}", {}, "12"),
+    ("{% macro w() %}{{ caller(0) }}{% endmacro %}{% for x in 'ab' %}{% call(loop) w() %}{% endcall %}{{ loop.index }}/{{ loop.length }} {% endfor %}", {}, "1/2 2/2 "),
+    ("{% for a in [1,2,3] %}{{ loop.index }}:{% for b in 'xy' %}{% macro m(loop) %}{% endmacro %}{{ loop.index }}{{ loop.last }}{% endfor %} {% endfor %}",
+     {}, "1:1False2True 2:1False2True 3:1False2True "),
+    # the parameter still shadows `loop` INSIDE the macro
+    ("{% for x in 'ab' %}{% macro m(loop) %}<{{ loop }}>{% endmacro %}{{ m(7) }}{{ loop.index }}{% endfor %}", {}, "<7>1<7>2"),
+    # reads inside a nested macro still count for the enclosing loop
+    ("{% for x in 'ab' %}{% macro m() %}{{ loop.index }}{% endmacro %}{{ m() }}{% endfor %}", {}, "12"),
+]
+
+
+def replay_nested_scope(w=None):
+    """Native replay: find_undeclared over [<macro / call block with parameter p>, <read of p>] must report p; and the
+    hunt templates (a parameter named `loop` before `loop.index` in a for body) render the loop's own state."""
+    import jinja2
+    w = w or {}
+    p = w.get("name") or "loop"
+    problems = []
+    for which in dict.fromkeys([w.get("which") or "Macro", "Macro", "CallBlock"]):
+        for nm in dict.fromkeys([p, "loop", "caller"]):
+            if which == "Macro":
+                scope = N.Macro("m", [N.Name(nm, "param")], [], [])
+            else:
+                scope = N.CallBlock(N.Call(N.Name(SCOPE_CALLEE, "load"), [], [], None, None), [N.Name(nm, "param")], [], [])
+            try:
+                got = C.find_undeclared([scope, N.Output([N.Name(nm, "load")])], (nm,))
+            except Exception as ex:  # noqa
+                problems.append(f"find_undeclared raised {type(ex).__name__}: {ex}")
+                continue
+            if set(got) != {nm}:
+                problems.append(f"find_undeclared([{which}(args=[{nm}]), Output({nm})], ({nm!r},)) reports {sorted(got)}: the read of {nm!r} AFTER the "
+                                f"{which.lower()} is not found because its parameter has the same name")
+    for is_async in (False, True):
+        env = jinja2.Environment(enable_async=is_async)
+        for src, ctx, want in HUNT_C07_1:
+            got = _render(env, src, **ctx)
+            if got != want:
+                problems.append(f"{src!r} (async={is_async}) renders {got!r}, expected {want!r}")
+    return (bool(problems), "; ".join(problems[:3]) or "a parameter of a nested macro / call block does not hide later reads of the same name")
+
+
 class VisitBlock(VC):
     """visit_Block of both analysis visitors: a nested Block is a scope of its own: nothing is visited, nothing changes."""
     prop = PROP
@@ -984,8 +1181,17 @@ def visitor_table(task, tier, seed):
         add(f"{cn}.bases", mro == [cn, "NodeVisitor", "object"] and cls.__mro__[1] is V.NodeVisitor, f"mro {mro}")
         own = {k for k, v in vars(cls).items() if isinstance(v, (types.FunctionType, staticmethod, classmethod, property)) or callable(v)}
         visit_methods = {k for k in dir(cls) if k.startswith("visit_")}
-        add(f"{cn}.visit_methods", visit_methods == want, f"visit_* methods {sorted(visit_methods)}, specification names {sorted(want)}",
-            {"cls": cn, "extra": sorted(visit_methods - want), "missing": sorted(want - visit_methods)})
+        # the name analysis may in addition treat nested macros / call blocks as scopes (both or none); such handlers are under
+        # contract themselves (C07.find_undeclared.scope_handler[...]: all children walked, the declarations restored)
+        scope = SCOPE_HANDLERS if cn == "UndeclaredNameVisitor" and SCOPE_HANDLERS <= visit_methods else set()
+        # ... and (all or none) the statements whose parts are evaluated in a scope / an order of their own: for, with, set,
+        # set block, filter block.  Those handlers are under contract in C06.uses_special.handler[...] (every child visited
+        # exactly once in evaluation order, declarations of a scoped part restored) and decided by the differentials.
+        if cn == "UndeclaredNameVisitor" and ORDER_HANDLERS <= visit_methods:
+            scope = scope | ORDER_HANDLERS
+        add(f"{cn}.visit_methods", visit_methods - scope == want, f"visit_* methods {sorted(visit_methods)}, specification names {sorted(want)}"
+            + (f" and the scope handlers {sorted(scope)}" if scope else ""),
+            {"cls": cn, "extra": sorted(visit_methods - want - scope), "missing": sorted(want - visit_methods)})
         walk = {k for k in ("visit", "generic_visit", "get_visitor", "__getattr__", "__getattribute__") if k in own}
         add(f"{cn}.walk_not_overridden", not walk, f"overrides {sorted(walk)}" if walk else "visit / generic_visit / get_visitor inherited from NodeVisitor",
             {"cls": cn, "overrides": sorted(walk)})
@@ -1076,7 +1282,9 @@ def _compound(children, shallow, depth_tag):
 
 def reference_report(nodes, names):
     """the specification, executable: names occurring as load-context Name anywhere in the subtrees, except inside
-    nested Block nodes; a name stops being looked for once it occurs in a non-load context (declared)"""
+    nested Block nodes; a name stops being looked for once it occurs in a non-load context (declared) - within the scope
+    that declares it: a nested Macro / CallBlock is a scope of its own, what it declares (its parameters) is declared
+    only inside of it"""
     wanted = set(names)
     found = set()
 
@@ -1084,6 +1292,16 @@ def reference_report(nodes, names):
         if found == set(names) and found:
             return
         if isinstance(n, N.Block):
+            return
+        if isinstance(n, (N.Macro, N.CallBlock)):
+            outside = set(wanted)
+            for f in n.fields:
+                v = getattr(n, f, None)
+                for c in (v if isinstance(v, list) else [v]):
+                    if isinstance(c, N.Node):
+                        walk(c)
+            wanted.clear()
+            wanted.update(outside)
             return
         if isinstance(n, N.Name):
             if n.ctx == "load":
@@ -1166,6 +1384,82 @@ def all_trees(part=None, parts=1):
         k += 1
 
 
+def scope_trees():
+    """Statement lists in which a nested macro / call block has a parameter named like a name that is looked for (or an
+    unrelated one), with reads of that name before, inside and after it; wrapped in a loop body, an if body, a macro body."""
+    rd = {"loop": lambda: N.Output([_name("loop")]), "caller": lambda: N.Output([N.Filter(_name("caller"), "f2", [], [], None, None)]),
+          "other": lambda: N.Output([_name("other")])}
+    mk = {"Macro": lambda p, body: N.Macro("m", [_name("a", "param"), _name(p, "param")], [_name("other")], body),
+          "CallBlock": lambda p, body: N.CallBlock(N.Call(_name("other"), [], [], None, None), [_name(p, "param")], [], body)}
+    for sname in ("Macro", "CallBlock"):
+        for p in ("loop", "caller", "b"):
+            for inside, before, after in itertools.product(("-", "loop", "caller", "other"), ("-", "loop"), ("-", "loop", "caller", "other")):
+                def stmts(sname=sname, p=p, inside=inside, before=before, after=after):
+                    out = [rd[before]()] if before != "-" else []
+                    out.append(mk[sname](p, [rd[inside]()] if inside != "-" else []))
+                    if after != "-":
+                        out.append(rd[after]())
+                    return out
+                inner = f"[{before},{sname}(args=[{p}],body=[{inside}]),{after}]"
+                yield f"For(body={inner})", lambda s=stmts: N.For(_name("x", "store"), _name("other"), s(), [], None, False)
+                yield f"If(body={inner})", lambda s=stmts: N.If(_name("other"), s(), [], [])
+                yield f"Macro(body={inner})", lambda s=stmts: N.Macro("outer", [_name("a", "param")], [], s())
+                yield f"For(body=[For(body={inner},else=[Output(0)])])", lambda s=stmts: N.For(
+                    _name("x", "store"), _name("other"), [N.For(_name("y", "store"), _name("other"), s(), [N.Output([_name("loop")])], None, False)], [], None, False)
+
+
+LOST_AFTER_PARAMETER = "read_after_a_nested_scope_with_a_parameter_of_the_same_name_not_found"
+
+
+def failure_class(label, text):
+    """the known class: the report misses exactly names that are parameters of a nested macro / call block in the tree"""
+    m = re.search(r"reports \[(.*?)\], specification \[(.*?)\]$", text or "")
+    if m:
+        got = set(re.findall(r"'(\w+)'", m.group(1)))
+        want = set(re.findall(r"'(\w+)'", m.group(2)))
+        if got < want and all(f"(args=[{nm}]" in label for nm in want - got):
+            return LOST_AFTER_PARAMETER
+    return (text or "")[:80]
+
+
+class ScopeDifferential(Task):
+    """bounded differential over the scope_trees family; every CLASS of disagreement is reported (a known class does not
+    hide another one)"""
+    kind = "bounded"
+    prop = PROP
+    name = "C07.find_undeclared.differential[nested_scopes]"
+    bound_text = ("all statement lists [read?, Macro|CallBlock(parameter in {loop, caller, b}, body=[read?]), read?] with reads of loop / caller / other, "
+                  "as body of a For, an If, a Macro and of a For nested in a For; queried for ('loop',), ('caller','kwargs','varargs'), ('loop','other'); "
+                  "compared with the executable specification (a nested macro / call block is a scope of its own)")
+
+    def run(self, tier, seed):
+        t0 = time.time()
+        n, seen, res = 0, {}, []
+        for lab, mk in scope_trees():
+            n += 1
+            bad = check_tree(lab, mk)
+            if bad:
+                k = failure_class(lab, bad)
+                if k not in seen and len(seen) < 6:
+                    seen[k] = True
+                    res.append(Res(self.name, "refuted", "bounded", time.time() - t0, bad, self.kind, witness={"tree": lab, "detail": bad, "class": k, "family": "scope"}))
+        self.stats = {"trees": n}
+        return res or [Res(self.name, "bounded-ok", "bounded", time.time() - t0, f"{n} trees agree with the specification", self.kind)]
+
+    def finding_key(self, res):
+        return (res.witness or {}).get("class") or (res.detail or "")[:80]
+
+    def replay(self, w):
+        w = w or {}
+        for lab, mk in scope_trees():
+            if w.get("tree") and w["tree"] != lab:
+                continue
+            bad = check_tree(lab, mk)
+            if bad:
+                return (True, bad)
+        return replay_nested_scope(w)
+
+
 class Differential(Task):
     kind = "bounded"
     prop = PROP
@@ -1241,5 +1535,7 @@ TASKS = FOR_TASKS + [
 
     VisitName(), VisitBlock("UndeclaredNameVisitor"), VisitBlock("DependencyFinderVisitor"), FindUndeclaredDriver(),
     DependencyAdd("Filter"), DependencyAdd("Test"),
+    NestedScope("Macro"), NestedScope("CallBlock"), NestedScope("Macro", default=True),
+] + [ScopeHandler(w) for w in ("Macro", "CallBlock") if f"visit_{w}" in vars(C.UndeclaredNameVisitor)] + [
     FnTask(PROP, "C07.find_undeclared.table", visitor_table, "table", differential),
-] + [Differential(i, 4) for i in range(4)]
+] + [Differential(i, 4) for i in range(4)] + [ScopeDifferential()]
